@@ -274,7 +274,7 @@ func init() {
 		Rule:   "SimplifyFlatCoords on sequences of 0..200 integer-grid points (random walks, closed loops, repeated points, collinear runs, constant-amplitude zig-zags, spikes next to an end), stride 2..5 with arbitrary extra ordinates (NaN included), thresholds {0, an exact distance of the input, integers, random, huge}: indexes strictly increasing incl. first and last; each dropped point's exact rational distance to the segment between its nearest retained neighbours <= threshold*(1+2^-50)+2^-46*max|ordinate|; with threshold 0 dropped points lie exactly on that segment; a second pass drops nothing; result identical to the XY-only input. distinct_nontrivial = distinct (class, n, kept, stride)",
 		Assume: []string{"math/big exact"},
 		Classes: []fw.Class{
-			{Name: "random", Quick: 60000, Thorough: 3000000, Run: c20Random},
+			{Name: "random", Quick: 150000, Thorough: 3000000, Run: c20Random},
 			{Name: "exhaustive-3x3", Quick: 1 + 9 + 81 + 729 + 6561, Thorough: exhN, Run: c20Exhaustive, Exhaustive: "every sequence of 0..4 (quick) / 0..6 (thorough) points on a 3x3 grid x thresholds {0, 0.5, 1, 1.5}"},
 		},
 		Require: []string{"points_dropped", "points_kept", "threshold_zero", "dropped_exactly_on_segment", "distance_equals_threshold", "class_zigzag", "class_closed-loop"},
